@@ -1,6 +1,6 @@
 (* C10 — charging-session references are unique and keep designating their session. *)
 From Coq Require Import List ZArith Bool.
-From Verif Require Import Charging.Servers Charging.Chf Charging.ChfProofs.
+From Verif Require Import Charging.Servers Charging.Chf Charging.ChfProofs Charging.HistoryProofs Charging.RecordHistory.
 Import ListNotations.
 Open Scope Z_scope.
 
@@ -21,6 +21,28 @@ Theorem C10_unique : forall rsize usize ops w,
   NoDup (map fst (created rsize usize w ops)).
 Proof. exact references_unique. Qed.
 Print Assumptions C10_unique.
+
+(* A reference designates its session and only it: in every state reachable from the empty CHF, an update
+   or a release addressed to [ref] leaves the recorded usage of every other session of every subscriber
+   untouched, and what it adds to session [ref] of the requesting subscriber is exactly its own usage
+   (nothing when the request is refused). *)
+Theorem C10_designates : forall rsize usize ops d n ref rq s sid,
+  let w := run rsize usize (mkWorld d [] n [] []) ops in
+  forall o, o = Update ref rq \/ o = Release ref rq ->
+  entries_of (fst (step rsize usize w o)) s sid =
+  entries_of w s sid ++ (if (r_supi rq =? s) && str_eqb ref sid
+                         then match reaches w ref rq with Some _ => req_entries rq | None => [] end
+                         else []).
+Proof.
+  intros rsize usize ops d n ref rq s sid w o Ho.
+  assert (Hw : world_inv w).
+  { unfold w, run. generalize (empty_world_inv d n). generalize (mkWorld d [] n [] []).
+    induction ops as [|o' rest IH]; intros w0 H0; [exact H0|]. cbn [fold_left]. apply IH.
+    apply (proj1 (step_records rsize usize w0 o' 0 [] H0)). }
+  destruct (step_records rsize usize w o s sid Hw) as [_ He]. rewrite He.
+  destruct Ho as [-> | ->]; cbn [reports]; destruct (reaches w ref rq); destruct ((r_supi rq =? s) && str_eqb ref sid); reflexivity.
+Qed.
+Print Assumptions C10_designates.
 
 (* non-vacuity: the pair of names that collided before the fix *)
 Example C10_nonvacuous :
